@@ -1386,6 +1386,9 @@ def _nonempty_basis(ctx, im):
                        for s2 in bb2['stmts']) or any(t3.get('dest', {}).get('l') == dl for bj, t3 in b2.calls() if bj not in in_loops):
                     grow_only = False
     if grow_only:
+        # (the loops were just shown to do nothing to these Vecs but append: what they hold when a loop is passed over is a prefix
+        # of what they really hold, so the values are kept instead of being forgotten)
+        n.skip_havoc = False
         rets = [bi for bi, bb in enumerate(b2.blocks) if bb['term']['t'] == 'return' and not bb.get('cleanup')]
         n_ok = n_all = 0
         try:
